@@ -831,6 +831,30 @@ fn repack(rng: &mut Rng, r: &RawFont) -> (RawFont, Vec<&'static str>) {
         }
         log.push("kerns-permuted");
     }
+    // identical extensible recipes stored once: characters share a recipe (a .tfm may; PLtoTF writes one per VARCHAR)
+    {
+        let mut uniq: Vec<[u8; 4]> = vec![];
+        let map: Vec<usize> = f
+            .exten
+            .iter()
+            .map(|e| match uniq.iter().position(|u| u == e) {
+                Some(i) => i,
+                None => {
+                    uniq.push(*e);
+                    uniq.len() - 1
+                }
+            })
+            .collect();
+        if uniq.len() < f.exten.len() && rng.chance(2, 3) {
+            for ci in f.char_info.iter_mut() {
+                if ci[2] % 4 == 3 && (ci[3] as usize) < map.len() {
+                    ci[3] = map[ci[3] as usize] as u8;
+                }
+            }
+            f.exten = uniq;
+            log.push("recipes-shared");
+        }
+    }
     if what == 4 || what == 5 {
         // unused words: an extra extensible recipe, or lower-case header strings
         if rng.coin() && f.exten.len() < 255 {
